@@ -49,7 +49,9 @@ NONBRIDGE = {
     "constant": "#[allow(dead_code)]\nconst K: u8 = 1;\n",
     "foreign_attr": "#[appcfg::config(lib_name = \"settings\", js.abi = \"spec\", kotlin.domain = \"org.example\", demo_gen.module_name = \"m\")]\n"
                     "pub struct Settings { pub v: u8 }\n#[other::config(lib_name = \"x\")]\nimpl Settings { pub fn get(&self) -> u8 { self.v } }\n",
+    "outer_attr": "",      # not an item of its own: attributes on the ordinary module `outer` that encloses the bridge module mb (see render)
 }
+OUTER_ATTRS = "#[diplomat::attr(*, rename = \"Geo{0}\")]\n#[diplomat::attr(auto, namespace = \"geo\")]\n"
 BASE = [["ma", [("type", "Alpha", 0), ("impl", "Alpha", 1), ("type", "Beta", 0), ("impl", "Beta", 1), ("impl", "Alpha", 2)]],
         ["mb", [("type", "Gamma", 0), ("impl", "Gamma", 1)]]]
 AGGREGATE = {"index.mjs", "index.d.ts", "lib.g.dart", "somelib_ext.cpp", "Lib.kt", "js/index.mjs", "js/index.d.ts",
@@ -66,8 +68,14 @@ def render(mods, extras):
         # types declared in other bridge modules are imported by path
         uses = ""
         if name == "ma":
-            uses = "    use crate::mb::Gamma;\n" if any(t == "Gamma" for m, its in mods if m == "mb" for _, t, _ in its) else ""
-        out.append("#[diplomat::bridge]\npub mod %s {\n    use diplomat_runtime::DiplomatWrite;\n%s%s}\n" % (name, uses, "\n".join(body)))
+            uses = "    use crate::outer::mb::Gamma;\n" if any(t == "Gamma" for m, its in mods if m == "mb" for _, t, _ in its) else ""
+        text = "#[diplomat::bridge]\npub mod %s {\n    use diplomat_runtime::DiplomatWrite;\n%s%s}\n" % (name, uses, "\n".join(body))
+        if name == "mb":
+            # the bridge module mb is NESTED in an ordinary module (what `mod foo;` files look like once inlined); Diplomat attributes
+            # on that ordinary module are code outside every bridge module
+            text = ((OUTER_ATTRS if "outer_attr" in extras else "") + "pub mod outer {\n" +
+                    "".join("    " + l + "\n" if l else "\n" for l in text.splitlines()) + "}\n")
+        out.append(text)
     return "".join(NONBRIDGE[x] for x in sorted(extras)) + "\n".join(out)
 
 
